@@ -747,7 +747,7 @@ def run_case(case):
       qref = qfrc_from_force(mjm, ref, fref) if substituted else ref["qfrc_actuator"]
       if substituted:
         rec.count("qfrc_actuator_reference_rebuilt")
-      qscale = absmom.T @ np.abs(fref) + np.abs(ref["qfrc_gravcomp"])
+      qscale = (np.repeat(absmom.max(axis=1, keepdims=True), mjm.nv, axis=1) * (absmom > 0)).T @ np.abs(fref) + np.abs(ref["qfrc_gravcomp"])
       qnoise = noise["qfrc_actuator"]
       if substituted:
         qnoise = np.minimum(qnoise, absmom.T @ np.where(np.isfinite(nz), nz, 0.0) + noise["moment"].T @ np.abs(fref) + noise["qfrc_gravcomp"])
